@@ -387,10 +387,13 @@ func TestVerifC07X(t *testing.T) {
 					}
 				}
 				if cfg == "timesubswvtt_en" {
-					tab = append(tab, q{ar.Path, cfg, "timesubs", vfURL(cfg, ar.Path, fmt.Sprintf("timewvtt-en/%d.m4s", n), tm)})
+					tab = append(tab, q{ar.Path, cfg, "timesubs", vfURL(cfg, ar.Path, fmt.Sprintf("timewvtt-en/%d.m4s", n), tm)},
+						q{ar.Path, cfg, "timesubs-init", vfURL(cfg, ar.Path, "timewvtt-en/init.mp4", tm)})
 				}
 				if cfg == "timesubsstpp_en,sv" {
-					tab = append(tab, q{ar.Path, cfg, "timesubs", vfURL(cfg, ar.Path, fmt.Sprintf("timestpp-sv/%d.m4s", n), tm)})
+					tab = append(tab, q{ar.Path, cfg, "timesubs", vfURL(cfg, ar.Path, fmt.Sprintf("timestpp-sv/%d.m4s", n), tm)},
+						q{ar.Path, cfg, "timesubs-init", vfURL(cfg, ar.Path, "timestpp-en/init.mp4", tm)},
+						q{ar.Path, cfg, "timesubs-init", vfURL(cfg, ar.Path, "timestpp-sv/init.mp4", tm)})
 				}
 			}
 		}
